@@ -107,6 +107,32 @@ impl Prop for P {
                 }
             }
         }
+        // bytes at the ends of the byte range and outside UTF-8 (0x00, 0x80, 0xFF) mixed with an ordinary one:
+        // keys are arbitrary bytes, only the patterns of Str / Subsequence are text
+        let mut odd: Vec<Vec<u8>> = vec![vec![]];
+        let mut layer: Vec<Vec<u8>> = vec![vec![]];
+        for _ in 0..4 {
+            let mut nx = vec![];
+            for s in &layer {
+                for &c in &[b'a', b'b', 0x00u8, 0x80, 0xFF] {
+                    let mut t = s.clone();
+                    t.push(c);
+                    nx.push(t);
+                }
+            }
+            odd.extend(nx.iter().cloned());
+            layer = nx;
+        }
+        let nleaf = 5 * lv.len();
+        for e in exps.iter().take(nleaf) {
+            let tok = e.token();
+            for s in &odd {
+                if s.iter().any(|&b| b == 0 || b >= 0x80) {
+                    cases.push(format!("{}\t{}", tok, hex(s)));
+                }
+            }
+        }
+        stats.add("strings_with_bytes_00_80_ff_per_leaf_expression", odd.len() as u64);
         cases
     }
 
@@ -121,6 +147,9 @@ impl Prop for P {
         let e = Exp::parse_str(it.next().unwrap());
         let w = unhex(it.next().unwrap());
         let a = e.build();
+        // the same expression with every automaton used through a borrow (impl Automaton for &T)
+        let ar = e.build_ref();
+        let mut str_ = ar.start();
         let mut st = a.start();
         let mut s_bits = String::new();
         let mut m_digits = String::new();
@@ -155,8 +184,12 @@ impl Prop for P {
                     }
                 }
             }
+            if (ar.is_match(&str_), ar.can_match(&str_), ar.will_always_match(&str_), ar.accept_eof(&str_).is_some()) != (im, cm, wm, a.accept_eof(&st).is_some()) {
+                x = format!("used through a borrow (&T) the automaton answers differently after {} bytes: is_match/can_match/will_always_match = {}/{}/{} instead of {}/{}/{}", i, ar.is_match(&str_), ar.can_match(&str_), ar.will_always_match(&str_), im, cm, wm);
+            }
             if i < w.len() {
                 st = a.accept(&st, w[i]);
+                str_ = ar.accept(&str_, w[i]);
             }
         }
         format!("S:{}\tM:{}\tX:{}", s_bits, m_digits, x)
